@@ -42,6 +42,8 @@ def run(site):
         o = r.stdout + r.stderr
         if 'load failed' in o:
             return (site, 'invalid', 'does not compile')
+        if 'panic:' in o and 'VIOLATION' not in o:
+            return (site, 'invalid', 'engine crash (reported, not counted as survived)')
         if 'VIOLATION' in o:
             first = [l for l in o.split('\n') if l.startswith('FAILED') or l.startswith('VIOLATION')][:1]
             return (site, 'killed', first[0][:160] if first else '')
